@@ -676,7 +676,8 @@ def plan_C10(ctx):
             n += 1
             rec = json.loads(json.loads(line)); L = len(rec["wire"])
             if ctx.quick and zlib.crc32(line.encode()) % 3: continue       # hash sampling: no aliasing with the enumeration order
-            for cut in [L] + list(range(20, L - 4, 1 if not ctx.quick else 2)):
+            # (in no-more-data mode a call on a strict prefix is *told* that nothing follows: only the one-call schedule applies)
+            for cut in [L] + ([] if rec["cfg"]["flags"] & 4 else list(range(20, L - 4, 1 if not ctx.quick else 2))):
                 f.write(json.dumps(json.dumps(dict(rec, cuts=[L] if cut == L else [cut, L]))) + "\n")
     rp = vlib.run_job(dict(mode="replay", inputs_file=inp, max_viol=200, extra=dict(drift_out="")), "c10msg")
     ctx.records += rp["extra"]["records"]; ctx.impl_traces += rp["extra"]["records"]
